@@ -551,9 +551,25 @@ Definition put_spec (s : spec_out) : val :=
 Definition last_subpath (rqs : list request) : list text :=
   match rev rqs with rq :: _ => r_subpath rq | [] => [] end.
 
+(* Lib/Utf8 against CPython: every sequence prefix ++ suffix with |suffix| = n; for each
+   accepted sequence the suffix, the code points, and whether re-encoding gives the bytes back *)
+Definition all_bytes : list N := map N.of_nat (seq 0 256).
+Fixpoint suffixes (n : nat) : list (list N) :=
+  match n with
+  | O => [[]]
+  | S k => flat_map (fun b => map (cons b) (suffixes k)) all_bytes
+  end.
+Definition utf8_sweep (prefix : text) (n : nat) : val :=
+  VL (flat_map (fun suf =>
+        match decode (prefix ++ suf) with
+        | None => []
+        | Some cs => [VL [VT suf; VT cs; vbool (text_eqb (encode cs) (prefix ++ suf))]]
+        end) (suffixes n)).
+
 Definition run_C16 (v : val) : val :=
   ret_or_bad (
     match v with
+    | VL [VI 1%Z; VT prefix; VI n] => Some (utf8_sweep prefix (Z.to_nat n))
     | VL [c; r; f] =>
         olet c := get_config c in olet rqs := get_list_of get_request r in olet fs := get_list_of get_entry f in
         let outs := run_model c fs rqs in
